@@ -240,6 +240,15 @@ def drive(PositionGrid, alg, N, text, order_seed=0):
     REC.begin_case({"o": f"{alg}_{N}", "t": text, "order": order_seed}, cls=[f"alg={alg}", f"text={text.split('(')[0][:8] if '(' in text[1:] else text[:1]}"],
                    sample=(N % 10 == 2))
     try:
+        if order_seed % 5 == 1 and N >= 4:
+            # history: a grid of the same names in the OTHER position mode is built and evaluated first in this process, the way the
+            # run_grid rule does it (nothing computed for it may be served to the default grid)
+            from molgri.space.fullgrid import FullGrid
+            from vlib.props.c02 import surrounds
+            if surrounds(alg, N):
+                REC.classes["Cartesian grid of the same names evaluated first"] += 1
+                twin = FullGrid("1", f"{alg}_{N}", text, position_grid_cartesian=True)
+                twin.get_total_volumes(); twin.get_full_borders(); twin.get_full_distances()
         if order_seed % 3 == 0:
             # history variant: the same position grid used through a FullGrid whose own (scaled) matrices are requested first
             from molgri.space.fullgrid import FullGrid
